@@ -119,6 +119,12 @@ func (Prop) Run(t *core.Tape, o core.RunOpts) *core.Result {
 			strategy = sched.SSticky90
 		}
 		res.Probes.Inc("long_lived_run")
+		// half of them with more than one caller run under the stalled-node fault (windows that
+		// open once per few hundred calls and need two callers inside)
+		if n > 1 && t.Bool(1, 2) {
+			rareStall = true
+			res.Probes.Inc("long_lived_stall_run")
+		}
 	}
 	// a rare "crowd": more callers at once than the 64 the property's quantifier names (queues,
 	// semaphores and tables sized for "more than enough" callers overflow here)
